@@ -770,11 +770,12 @@ def run(ctx: Ctx):
                              "fun c => cnf_projection_ok (fst c) (snd c)", coq_cases, shard=40)
     ctx.notes.append("clause lists are compared as multisets (literals sorted inside each clause, clauses sorted, both sides sorted inside Coq): "
                      "_encode_all_different/_encode_eq_var/_encode_ne_var iterate Python sets in hash order")
-    ctx.notes.append("kinds resting on theorems (coq/Props/C06.v, all inputs): variables/exactly-one/decoding, ==/!= const, ==/!= var, all_different, "
-                     "no_overlap, linear ==/!= (every shape _linearize accepts), sum_eq/le/ge, circuit, and whole models built from them "
-                     "(C06_sound/_complete/_equisat/_projection under model_proved); kinds with model_proved = false rest on the per-case "
-                     "kernel check cnf_projection_ok (Gallina model counter on the CAPTURED clauses, itself proved sound: C06_check_no_extra / "
-                     "_no_missing); that check runs on every explored case of every kind")
+    ctx.notes.append("theorems (coq/Props/C06.v, all inputs, no size bound) cover EVERY constraint kind the encoder accepts: variables/exactly-one/"
+                     "decoding, ==/!= const, ==/!= var, all_different, no_overlap, linear ==/!= (every shape _linearize accepts), sum_eq/le/ge, "
+                     "circuit, cumulative, and whole models (C06_sound/_complete/_equisat/_projection under wf_model); they are statements about "
+                     "the Gallina model CpEnc.encode, tied to cp_encoder.py by the per-run clause-multiset correspondence (enc); independently "
+                     "every explored case is checked by cnf_projection_ok (Gallina model counter on the CAPTURED clauses, proved sound: "
+                     "C06_check_no_extra/_no_missing) and by the Python oracle")
     ctx.notes.append("variables with an empty domain (lb > ub) never reach the encoder through Model.solve (INFEASIBLE is returned first, 39644fa); "
                      "the encoder theorems assume lb <= ub (wf_model); checked on one fixed input per run")
     ctx.notes.append("semantics taken from the code: circuit forbids self loops (n=1 unsatisfiable), no_overlap is end_i<=start_j or end_j<=start_i, "
